@@ -1,0 +1,15 @@
+//go:build verif
+
+package josecipher
+
+// Verification hooks (build tag "verif" only).
+
+func VerifPadBuffer(buffer []byte, blockSize int) []byte { return padBuffer(buffer, blockSize) }
+func VerifUnpadBuffer(buffer []byte, blockSize int) ([]byte, error) {
+	return unpadBuffer(buffer, blockSize)
+}
+
+// VerifAuthTag computes the CBC-HMAC tag of an AEAD made by NewCBCHMAC.
+func VerifAuthTag(aead interface{}, aad, nonce, ciphertext []byte) []byte {
+	return aead.(*cbcAEAD).computeAuthTag(aad, nonce, ciphertext)
+}
